@@ -282,6 +282,18 @@ def run_c09(ctx):
                 "v-polynomial", {})
         ctx.ob("C09-b", "result.v is that value", scalar_of(w.result.fields["v"], "v") == Expr.symbol("v"), "sampling::sample", "v-wiring")
     guarded_clause(ctx, "C09-b", w.roles["vpoly"].path, "v-polynomial", b)
+    ctx.rule("C09-c", "the matrix whose determinant (u) and inverse (L⁻¹) enter V·U is L[a,b] = Σ_e x_e·s[e,a]·s[e,b], with orientation signs")
+
+    def c():
+        fn = w.roles["lmatrix"].path
+        e = fresh("e")
+        want = ssum(leaf("x", e) * leaf("sig", e, "a") * leaf("sig", e, "b"), e, "E")
+        compare(ctx, "C09-c", "L[a,b] == Σ_e x_e s[e,a] s[e,b]", scalar_of(w.rec["lmatrix"].at("a", "b"), "L entry"), want, fn, "l-matrix-entry",
+                {"a": "L", "b": "L"})
+        dargs = w.calls.get("decompose")
+        ok = dargs is not None and isinstance(dargs[0], Arr) and scalar_of(dargs[0].at("a", "b"), "arg") == leaf("Lmat", "a", "b")
+        ctx.ob("C09-c", "u and L⁻¹ come from the decomposition of that matrix", ok, "sampling::sample", "decompose-receives-l-matrix")
+    guarded_clause(ctx, "C09-c", w.roles["lmatrix"].path, "l-matrix", c)
 
 
 # ---------------------------------------------------------------------------------------------------
@@ -319,6 +331,8 @@ def run_c10(ctx):
                 scalar_of(dr.fields["inverse"].at("a", "b"), "inv") == leaf("Linv", "a", "b")
             ctx.ob("C10-b", "Metadata's decomposition result is the one used", ok, "sampling::sample", "metadata-decomposition")
     guarded_clause(ctx, "C10-b", w.roles["shift"].path, "shift", b)
+    ctx.rule("C10-c", "the two decomposition fields the momentum map consumes are consistent: inverse = Q⁻ᵀ·(Q⁻ᵀ)ᵀ, so the covariance (v/2λ)·Q⁻ᵀQ⁻¹ is (v/2λ)·L⁻¹")
+    matrix_wiring_clause(ctx, "C10-c", "covariance")
 
 
 # ---------------------------------------------------------------------------------------------------
@@ -507,6 +521,26 @@ def run_c15(ctx):
         ctx.ob("C15-d", "IndexMut offset is r·dim + c (sibling agreement)", offs.get("index_mut") == want, "matrix::SquareMatrix::index_mut", "index-mut-offset",
                detail="offset %s, expected %s" % (offs.get("index_mut"), want))
     guarded_clause(ctx, "C15-d", "matrix::SquareMatrix", "index-offset", d)
+
+
+def matrix_wiring_clause(ctx, rule, what):
+    """inverse = QTI·QTIᵀ and q_transposed = Qᵀ, restated for properties whose formulas consume these fields."""
+    w = matrix_world(ctx)
+    if not w.ok:
+        ctx.ob(rule, "decompose_for_tropical summarised", False, "matrix::SquareMatrix::decompose_for_tropical", "kernel-undecided", detail=w.error)
+        return
+    fn = w.dec.path
+    ctx.fn(fn)
+
+    def body():
+        r = w.result
+        qti = r.fields["q_transposed_inverse"]
+        inv = scalar_of(r.fields["inverse"].at("a", "b"), "inverse")
+        k = fresh("k")
+        want_inv = ssum(scalar_of(qti.at("a", k), "qti") * scalar_of(qti.at("b", k), "qti"), k, "n")
+        compare(ctx, rule, "%s: the fields consumed satisfy inverse[a,b] == Σ_k q_transposed_inverse[a,k]·q_transposed_inverse[b,k]" % what, inv, want_inv, fn,
+                "inverse-vs-qti", {"a": "n", "b": "n"}, symmetric=())
+    guarded_clause(ctx, rule, fn, "inverse-vs-qti", body)
 
 
 def run_c16d(ctx):
@@ -754,6 +788,250 @@ def run_c14g(ctx):
         compare(ctx, "C14-g", "pairs of the Gaussian routine == (Gaussian term of get_dimension) div 2 (two reads per pair; the term is even)", pairs,
                 Expr.atom(("call", "idiv", gterm, Expr.const(2))), gauss.path, "gaussian-count-sibling", {}, ())
     guarded_clause(ctx, "C14-g", gauss.path, "gaussian-count", g)
+
+
+# ---------------------------------------------------------------------------------------------------
+# C07 / C11 (rescaling): the sector routine
+
+class SectorWorld:
+    """Per-iteration transfer function of the sector loop (case split on the single-edge condition only) and the
+    straight-line tail (rescaling), with the loop state as named unknowns."""
+
+    def __init__(self, ctx):
+        from .c06 import find_scan
+        from ..kern.interp import snapshot, restore, BreakSignal
+        self.ctx = ctx
+        self.ok = False
+        self.error = None
+        f = ctx.facts
+        R = ctx.roles
+        try:
+            sector, scan_site = find_scan(ctx, R)
+            read = R.read_fn()
+            rd = R.reader_adt()
+        except RoleLost as e:
+            self.error = str(e)
+            return
+        self.sector = sector
+        scan = scan_site[2]
+        X.POSITIVE_CALLS |= {"loops", "omega"}
+        self.transfers = {}
+        sites = [0]
+        world_self = self
+
+        def on_while(I, cond, body, env, muts):
+            world_self.muts = muts
+            world_self.loop_cond = None
+            try:
+                world_self.loop_cond = I.eval(cond, env)
+            except Undecided:
+                pass
+            for case in (True, False):
+                snap = snapshot(env)
+                I.models["has_one_edge"] = (lambda I_, c, a, _c=case: Cond("const", _c))
+                I.in_transfer = True
+                I.breaks = []
+                sites0 = sites[0]
+                benv = Interp.Env(env)
+                brk = False
+                err = None
+                try:
+                    I.eval(body, benv)
+                except BreakSignal:
+                    brk = True
+                except Undecided as u:
+                    err = u.what
+                finally:
+                    I.in_transfer = False
+                post = {name: env.get(vid) for (vid, name, ty) in muts}
+                world_self.transfers[case] = {"post": post, "always_breaks": brk, "breaks": [b[0] for b in I.breaks], "reads": sites[0] - sites0, "error": err}
+                restore(env, snap)
+            del I.models["has_one_edge"]
+
+        def read_hook(I, c, a):
+            sites[0] += 1
+            return Num(Expr.leaf("read", "s%d" % sites[0]))
+
+        def scan_hook(I, c, a):
+            g = [x for x in a if isinstance(x, world.GraphIdVal)]
+            if len(g) != 1:
+                raise Undecided("scan call without a subgraph argument")
+            k = g[0].key_
+            return Tup([Num(Expr.zero(), ent="scan(%s)" % k), world.GraphIdVal("pop(%s,scan(%s))" % (k, k))])
+
+        hooks = {read.path: read_hook, scan.path: scan_hook}
+        for key, b in f.mir.items():
+            fi = f.fns.get(b.path) or {}
+            if (f.ty(fi.get("impl_self") or "") or {}).get("path") == rd["adt"] and b is not read and b is not rd["ctor"]:
+                hooks[b.path] = (lambda nm: (lambda I_, c, a: num_const(0) if nm.endswith("zero") else num_const(1)))(b.path)
+        I = Interp(f, models=hooks)
+        I.on_while = on_while
+        self.I = I
+        args = []
+        for l in sector.locals[1:sector.arg_count + 1]:
+            ty = l["ty"]
+            if "TropicalSubgraphTable" in ty:
+                args.append(world.table())
+            elif "TropicalSamplingSettings" in ty:
+                args.append(world.settings())
+            elif rd["adt"] in ty:
+                args.append(Opaque("reader"))
+            else:
+                args.append(Opaque(l.get("name") or "arg"))
+        names = set()
+        for l in sector.locals:
+            if l.get("name"):
+                names.add(l["name"])
+        X.POSITIVE_LEAVES |= names | {"read"}
+        try:
+            self.result = I.run_fn(sector.path, args)
+        except Undecided as u:
+            self.error = "sector routine could not be summarised: %s" % u.what
+            return
+        if not isinstance(self.result, Struct):
+            self.error = "sector result is not a struct"
+            return
+        if len(I.while_loops) != 1 or not self.transfers:
+            self.error = "expected exactly one while loop in the sector routine (found %d)" % len(I.while_loops)
+            return
+        self.ok = True
+
+
+_sworlds = {}
+
+
+def sector_world(ctx):
+    key = id(ctx.facts)
+    if key not in _sworlds:
+        _sworlds[key] = SectorWorld(ctx)
+    return _sworlds[key]
+
+
+def run_c07(ctx):
+    ctx.rule("C07-a", "one iteration of the sector loop: x[edge] := κ; graph := graph∖edge; if edges remain κ := κ·ξ^(1/ω[graph∖edge]) with ξ a fresh read")
+    ctx.rule("C07-b", "u_trop *= x[edge] exactly when the loop number drops; v_trop := x[edge] exactly when spanning → not spanning (table flags of graph and graph∖edge)")
+    w = sector_world(ctx)
+    if not w.ok:
+        ctx.ob("C07-a", "sector routine summarised", False, "sampling::permatuhedral_sampling", "kernel-undecided", detail="kernel-undecided: %s" % w.error)
+        return
+    fn = w.sector.path
+    ctx.fn(fn)
+    for case in (True, False):
+        tr = w.transfers.get(case)
+        label = "single-edge" if case else "multi-edge"
+
+        def body(tr=tr, label=label):
+            if tr["error"]:
+                raise Undecided("iteration body (%s case): %s" % (label, tr["error"]))
+            post = tr["post"]
+            arrs = [(n, v) for n, v in post.items() if isinstance(v, Arr) and v.rules]
+            graphs = [(n, v) for n, v in post.items() if isinstance(v, world.GraphIdVal)]
+            if len(arrs) != 1 or len(graphs) != 1:
+                raise Undecided("iteration state: expected one parameter array and one graph (%d, %d)" % (len(arrs), len(graphs)))
+            xname, xv = arrs[0]
+            gname, gv = graphs[0]
+            ok_x = len(xv.rules) == 1 and xv.rules[0].op == "=" and not xv.rules[0].binders and not xv.rules[0].guards
+            edge = xv.rules[0].index[0] if ok_x else None
+            kap = scalar_of(xv.rules[0].value, "stored value") if ok_x else None
+            kap_ok = ok_x and kap.is_monomial() and len(kap.terms[0].atoms) == 1 and kap.terms[0].coeff == 1
+            kname = kap.terms[0].atoms[0][0][1] if kap_ok else None
+            ctx.ob("C07-a", "[%s] exactly one parameter is written per iteration: x[edge] := κ (κ = `%s`)" % (label, kname), bool(kap_ok), fn,
+                   "x-edge-gets-kappa:" + label, detail="rules %s" % [(r.index, r.op) for r in xv.rules])
+            if not kap_ok:
+                return
+            g2 = "pop(%s,%s)" % (gname, edge)
+            ctx.ob("C07-a", "[%s] graph := graph∖edge for the same edge" % label, gv.key_ == g2, fn, "graph-pop-edge:" + label,
+                   detail="graph becomes %s, expected %s" % (gv.key_, g2))
+            # break exactly when the remaining graph is empty
+            ctx.ob("C07-a", "[%s] the loop is left right after the removal iff the remaining graph is empty" % label,
+                   tr["breaks"] == ["empty(%s)" % g2] and not tr["always_breaks"], fn, "break-iff-empty:" + label, detail="break conditions %s" % tr["breaks"])
+            # kappa update on the continuing path
+            kpost = scalar_of(post[kname], "κ'")
+            ratio = (kpost * Expr.leaf(kname).inv()).simplified()
+            ok_k = False
+            det = "κ'/κ = %s" % ratio.key()
+            if ratio.is_monomial() and len(ratio.terms[0].atoms) == 1 and ratio.terms[0].coeff == 1:
+                a, ex = ratio.terms[0].atoms[0]
+                want_ex = 1 / sp.Symbol("omega(%s)" % g2, positive=True)
+                ok_k = a[0] == "leaf" and a[1] == "read" and sp.simplify(ex - want_ex) == 0
+            ctx.ob("C07-a", "[%s] κ' = κ·ξ^(1/ω[graph∖edge]) with ξ a read of this iteration" % label, ok_k, fn, "kappa-recurrence:" + label, detail=det)
+            # b: tropical bookkeeping
+            span_key = "(spanning(%s) And !(spanning(%s)))" % (gname, g2)
+            loops_key = "%s Lt %s" % (Expr.atom(("call", "loops", g2)).key(), Expr.atom(("call", "loops", gname)).key())
+            K = Expr.leaf(kname)
+            vnames = [n for n, v in post.items() if isinstance(v, Num) and n not in (kname,)]
+            found_v = found_u = None
+            for n in vnames:
+                e = scalar_of(post[n], n)
+                if e == Expr.atom(("ite", span_key, K, Expr.leaf(n))):
+                    found_v = n
+                if e == Expr.atom(("ite", loops_key, K * Expr.leaf(n), Expr.leaf(n))):
+                    found_u = n
+            ctx.ob("C07-b", "[%s] V_tr bookkeeping: v := x[edge] iff spanning(graph) ∧ ¬spanning(graph∖edge) (`%s`)" % (label, found_v), found_v is not None, fn,
+                   "v-trop-update:" + label, detail="state after the iteration: %s" % {n: scalar_of(post[n], n).key()[:200] for n in vnames})
+            ctx.ob("C07-b", "[%s] U_tr bookkeeping: u *= x[edge] iff loops(graph∖edge) < loops(graph) (`%s`)" % (label, found_u), found_u is not None, fn,
+                   "u-trop-update:" + label, detail="state after the iteration: %s" % {n: scalar_of(post[n], n).key()[:200] for n in vnames})
+            others = [n for n in vnames if n not in (found_u, found_v) and scalar_of(post[n], n) != Expr.leaf(n)]
+            ctx.ob("C07-b", "[%s] no other scalar state changes in an iteration" % label, not others, fn, "other-state:" + label, detail="also modified: %s" % others)
+            w.names = {"x": xname, "kappa": kname, "u": found_u, "v": found_v, "graph": gname}
+        guarded_clause(ctx, "C07-a", fn, "iteration:" + label, body)
+    run_rescaling(ctx, "C07")
+
+
+def run_rescaling(ctx, pid):
+    rc, rd_ = pid + "-c", pid + "-d"
+    ctx.rule(rc, "rescaling: every x_e is multiplied by one factor s with s^(L·D/2+dod)·U_tr^(D/2)·V_tr^dod = 1 (L = the full graph's stored loop number), "
+                 "so the returned tropical polynomials are 1")
+    w = sector_world(ctx)
+    if not w.ok:
+        ctx.ob(rc, "sector routine summarised", False, "sampling::permatuhedral_sampling", "kernel-undecided", detail="kernel-undecided: %s" % w.error)
+        return
+    fn = w.sector.path
+    ctx.fn(fn)
+
+    def body():
+        res = w.result
+        xs = [(n, v) for n, v in res.fields.items() if isinstance(v, Arr)]
+        scal = [(n, v) for n, v in res.fields.items() if isinstance(v, Num)]
+        if len(xs) != 1 or len(scal) != 2:
+            raise Undecided("sector result fields")
+        xe = scalar_of(xs[0][1].at("e"), "x[e]")
+        # the loop's array state is a named unknown; divide it out
+        names = set()
+        xe.has_atom(lambda a: names.add(a[1]) if a[0] == "leaf" and len(a) == 3 and a[2] == "e" else False)
+        if len(names) != 1:
+            raise Undecided("x[e] does not factor as (loop state)[e] · s: %s" % xe.key()[:200])
+        xname = sorted(names)[0]
+        s_ = (xe * Expr.leaf(xname, "e").inv()).simplified()
+        ok_s = s_.is_monomial() and "e" not in s_.free_vars()
+        ctx.ob(rc, "x[e] = x_loop[e]·s with one common factor s", ok_s, fn, "common-rescaling-factor", detail="x[e]/x_loop[e] = %s" % s_.key()[:300])
+        if not ok_s:
+            return
+        trop = sorted(a[1] for a, _x in s_.terms[0].atoms if a[0] == "leaf" and len(a) == 2)
+        ok_two = len(trop) == 2
+        ctx.ob(rc, "s is a monomial in the two tropical polynomials (%s)" % trop, ok_two and s_.terms[0].coeff == 1 and len(s_.terms[0].atoms) == 2, fn,
+               "scaling-monomial", detail="s = %s" % s_.key())
+        if not ok_two:
+            return
+        Lf = sp.Symbol("loops(full)", positive=True)
+        names = getattr(w, "names", None) or {}
+        un, vn = names.get("u"), names.get("v")
+        if un not in trop or vn not in trop:
+            # fall back: decide which is U by the identity itself (try both assignments)
+            cands = [(trop[0], trop[1]), (trop[1], trop[0])]
+        else:
+            cands = [(un, vn)]
+        good = None
+        for (u_, v_) in cands:
+            ident = s_.powf(Lf * D / 2 + DOD) * Expr.leaf(u_).powf(D / 2) * Expr.leaf(v_).powf(DOD)
+            if ident.simplified() == Expr.const(1):
+                good = (u_, v_)
+        ctx.ob(rc, "s^(L·D/2+dod)·U_tr^(D/2)·V_tr^dod == 1 with L the stored loop number of the full graph", good is not None, fn, "rescaling-identity",
+               detail="s = %s; identity does not reduce to 1 for (U_tr, V_tr) in %s" % (s_.key(), cands))
+        ones = all(scalar_of(v, n) == Expr.const(1) for n, v in scal)
+        ctx.ob(rc, "the returned tropical polynomials are the constant 1", ones, fn, "returned-trop-one",
+               detail="%s" % {n: scalar_of(v, n).key() for n, v in scal})
+    guarded_clause(ctx, rc, fn, "rescaling", body)
 
 
 def run_c20b(ctx):
